@@ -385,59 +385,178 @@ def contract(chk, data, order, nprng):
 # Each check_* evaluates the property clauses on ONE explicit input of the real code (used by the generators below and by
 # `replay`); the replay dict it records is exactly its own argument list.
 
-def check_bin(chk, data, n):
+def _exact_blocks(a, n):
+    """the n x n block sums of the last two axes and the per-image totals as exact Python numbers (int / Fraction): no
+    accumulation order, no dtype involved"""
+    from fractions import Fraction
+    lead = a.shape[:-2]
+    R, C = a.shape[-2] // n, a.shape[-1] // n
+    conv = int if a.dtype.kind in "iu" else (lambda v: Fraction(float(v)))
+    obj = numpy.empty(a.shape, dtype=object)
+    for idx in numpy.ndindex(*a.shape):
+        obj[idx] = conv(a[idx])
+    blocks = obj.reshape(lead + (R, n, C, n)).sum(axis=(-3, -1)) if obj.size else obj.reshape(lead + (R, C))
+    return numpy.asarray(blocks, dtype=object).reshape(lead + (R, C)), obj
+
+
+def check_bin(chk, data, n, generic=False):
+    """generic=False: every block sum is representable in data.dtype and every partial sum is exact, so the result must equal
+    the exact block sums whatever the accumulation order; generic=True (ordinary floats): each output must be the block sum to
+    the rounding of a sum of n*n terms, |got - exact| <= n*n * eps(dtype) * sum|block| (the a-priori bound of ANY summation
+    order is (n*n-1) * eps/2 * sum|block|)"""
+    from fractions import Fraction
     ip, _, _ = _lib()
     lead = data.shape[:-2]
     R, C = data.shape[-2] // n, data.shape[-1] // n
     path = "2d" if not lead else "nd"
-    rep = {"case": "bin", "function": "binImgs", "shape": list(data.shape), "n": n, "dtype": str(data.dtype), "data": data.tolist()}
-    snapshot = data.copy()
+    rep = {"case": "bin", "function": "binImgs", "shape": list(data.shape), "n": n, "dtype": str(data.dtype),
+           "data": data.tolist(), "generic": bool(generic),
+           "layout": "C" if data.flags.c_contiguous else ("F" if data.flags.f_contiguous else "strided")}
+    snapshot = numpy.array(data, copy=True, order="K")
     got, err = _call(ip.binImgs, data, n)
     if err:
-        chk.fail("bin:%s:raises" % path, "binImgs(shape %s, n=%d) raised %s" % (data.shape, n, err), rep)
+        chk.fail("bin:%s:raises" % path, "binImgs(shape %s %s, n=%d) raised %s" % (data.shape, data.dtype, n, err), rep)
         return
-    blocks = snapshot.reshape(lead + (R, n, C, n)).sum(axis=(-3, -1))
+    blocks, obj = _exact_blocks(snapshot, n)
     if got.shape != blocks.shape:
         chk.fail("bin:%s:shape" % path, "binImgs(shape %s, n=%d) has shape %s, expected %s" % (data.shape, n, got.shape, blocks.shape), rep)
         return
-    if not numpy.array_equal(got, blocks):
-        bad = numpy.argwhere(got != blocks)[0].tolist()
-        chk.fail("bin:%s:block-sum" % path, "binImgs(shape %s, n=%d)%s = %r but the %dx%d block sums to %r"
-                 % (data.shape, n, bad, got[tuple(bad)].item(), n, n, blocks[tuple(bad)].item()), rep)
-    if got.sum(axis=(-2, -1)).tolist() != snapshot.sum(axis=(-2, -1)).tolist():
-        chk.fail("bin:%s:total" % path, "binImgs(shape %s, n=%d) does not preserve the total flux per image" % (data.shape, n), rep)
+    if got.dtype != data.dtype:
+        chk.broke("correspondence", "binImgs(%s data) returns dtype %s (the model keeps the input dtype)" % (data.dtype, got.dtype))
+    conv = int if got.dtype.kind in "iu" else (lambda v: Fraction(float(v)))
+    gobj = numpy.empty(got.shape, dtype=object)
+    finite = True
+    for idx in numpy.ndindex(*got.shape):
+        v = got[idx]
+        if got.dtype.kind == "f" and not numpy.isfinite(v):
+            finite = False
+            break
+        gobj[idx] = conv(v)
+    if not finite:
+        chk.fail("bin:%s:block-sum" % path, "binImgs(shape %s %s, n=%d) is not finite" % (data.shape, data.dtype, n), rep)
+        return
+    if not generic:
+        if not numpy.all(gobj == blocks):
+            bad = numpy.argwhere(gobj != blocks)[0].tolist()
+            chk.fail("bin:%s:block-sum" % path, "binImgs(shape %s %s, n=%d)%s = %r but the %dx%d block sums to %r"
+                     % (data.shape, data.dtype, n, bad, got[tuple(bad)].item(), n, n, float(blocks[tuple(bad)])
+                        if data.dtype.kind == "f" else int(blocks[tuple(bad)])), rep)
+        tot_got = gobj.reshape(lead + (-1,)).sum(axis=-1) if gobj.size else 0
+        tot_in = obj.reshape(lead + (-1,)).sum(axis=-1) if obj.size else 0
+        if not numpy.all(tot_got == tot_in):
+            chk.fail("bin:%s:total" % path, "binImgs(shape %s %s, n=%d) does not preserve the total flux per image"
+                     % (data.shape, data.dtype, n), rep)
+    else:
+        eps = float(numpy.finfo(data.dtype).eps)
+        absblocks = numpy.abs(snapshot.astype(float)).reshape(lead + (R, n, C, n)).sum(axis=(-3, -1))
+        worst = 0.0
+        for idx in numpy.ndindex(*got.shape):
+            bound = n * n * eps * float(absblocks[idx])
+            e = abs(gobj[idx] - blocks[idx])
+            if bound > 0:
+                worst = max(worst, float(e) / bound)
+            if e > bound:
+                chk.fail("bin:%s:block-sum:float" % path, "binImgs(shape %s %s, n=%d)%s = %r but the %dx%d block sums to %r (error "
+                         "%.3g, a sum of %d terms of this size is accurate to %.3g)"
+                         % (data.shape, data.dtype, n, list(idx), got[idx].item(), n, n, float(blocks[idx]), float(e), n * n, bound), rep)
+                break
+        chk.generic_worst = max(getattr(chk, "generic_worst", 0.0), worst)
     if lead:
         for idx in numpy.ndindex(*lead):
             one, err1 = _call(ip.binImgs, snapshot[idx].copy(), n)
-            if err1 or not numpy.array_equal(one, got[idx]):
-                chk.fail("bin:stack", "binImgs(stack)[%s] differs from binImgs(stack[%s]) for shape %s, n=%d"
-                         % (idx, idx, data.shape, n), rep)
+            same = (not err1) and one.shape == got[idx].shape and \
+                (numpy.array_equal(one, got[idx]) if not generic else
+                 bool(numpy.all(numpy.abs(one.astype(float) - got[idx].astype(float))
+                                <= n * n * float(numpy.finfo(data.dtype).eps) * absblocks[idx])))
+            if not same:
+                chk.fail("bin:stack", "binImgs(stack)[%s] differs from binImgs(stack[%s]) for shape %s %s, n=%d"
+                         % (idx, idx, data.shape, data.dtype, n), rep)
                 break
     if not numpy.array_equal(snapshot, data):
         chk.fail("bin:%s:mutates-input" % path, "binImgs modified its input (shape %s, n=%d)" % (data.shape, n), rep)
 
 
+def _hdr_image(rng, shape, n, dtype):
+    """float image with a large dynamic range whose block sums are nevertheless EXACT in `dtype` in every accumulation order:
+    one hot pixel 2^k (k beyond the mantissa) per image, the other pixels of its block multiples of 4 ulp(2^k) (or zero), every
+    other block small integers (sums < 2^20).  The hot pixel sits in the first block (at [0,0] half of the time) so that
+    ordinary pixels follow it along both axes."""
+    p = 24 if dtype == "float32" else 53
+    lead = shape[:-2]
+    a = _ints(rng, shape, 0, 4000).astype(dtype)
+    for idx in numpy.ndindex(*lead):
+        k = rng.randint(p + 2, p + 8)
+        hy, hx = (0, 0) if rng.random() < 0.5 else (rng.randrange(n), rng.randrange(n))
+        q = 2.0 ** (k - p + 3)
+        for y in range(n):
+            for x in range(n):
+                a[idx + (y, x)] = q * rng.randint(0, 7) if rng.random() < 0.5 else 0.0
+        a[idx + (hy, hx)] = 2.0 ** k
+    return a
+
+
+def _layout(rng, data):
+    """the same values as a C-contiguous array, a Fortran-ordered array, a strided view or a negative-stride view"""
+    kind = rng.choice(["C", "C", "F", "strided", "reversed"])
+    if kind == "F":
+        return numpy.asfortranarray(data), kind
+    if kind == "strided":
+        big = numpy.zeros(data.shape[:-2] + (2 * data.shape[-2], 3 * data.shape[-1]), dtype=data.dtype)
+        big[..., ::2, 1::3] = data
+        return big[..., ::2, 1::3], kind
+    if kind == "reversed":
+        return numpy.ascontiguousarray(data[..., ::-1, ::-1])[..., ::-1, ::-1], kind
+    return data, kind
+
+
 def oracle_bin(chk, n_cases):
     rng = chk.rng
+    kinds = ["int64", "int32", "float64", "float64-dyadic", "uint8", "int16", "uint16", "float32",
+             "hdr-float64", "hdr-float64", "hdr-float32", "generic-float64", "generic-float32"]
     for it in range(n_cases):
         chk.oracle_cases += 1
         n = rng.choice([1, 2, 2, 3, 4, 5, 6, 8])
         R, C = rng.randint(1, 6), rng.randint(1, 6)
         lead = () if rng.random() < 0.5 else tuple(rng.randint(1, 3) for _ in range(rng.choice([1, 1, 2])))
-        dtype = rng.choice(["int64", "float64", "int32"])
-        data = _ints(rng, lead + (R * n, C * n), 0, 4000).astype(dtype)
-        if dtype == "float64" and rng.random() < 0.5:
-            data = data / 8.0          # dyadic: sums stay exact
+        kind = kinds[it % len(kinds)]
+        shape = lead + (R * n, C * n)
+        generic = False
+        if kind.startswith("hdr-"):
+            if C == 1 and R == 1:
+                C = 2
+                shape = lead + (R * n, C * n)
+            data = _hdr_image(rng, shape, n, kind[4:])
+        elif kind.startswith("generic-"):
+            # ordinary floats over 12 decades (a PSF with a bright core and faint wings), both signs
+            nprng = numpy.random.default_rng(rng.getrandbits(32))
+            data = (10.0 ** nprng.uniform(-6, 6, shape) * nprng.choice([-1.0, 1.0, 1.0], shape)).astype(kind[8:])
+            generic = True
+        elif kind == "float64-dyadic":
+            data = _ints(rng, shape, 0, 4000) / 8.0
+        elif kind == "uint8":
+            data = _ints(rng, shape, 0, 255 // (n * n)).astype(kind)      # block sums fit the dtype (stated assumption)
+        elif kind in ("int16", "uint16"):
+            data = _ints(rng, shape, 0, 32767 // (n * n)).astype(kind)
+        else:
+            data = _ints(rng, shape, 0, 4000).astype(kind)
+        data, layout = _layout(rng, data)
         path = "2d" if not lead else "nd"
-        chk.case(("oracle", "bin", path, lead, R * n, C * n, n, dtype, it),
-                 sample={"oracle": "bin", "shape": list(data.shape), "n": n, "dtype": dtype} if it == 0 else None)
+        chk.case(("oracle", "bin", path, lead, R * n, C * n, n, kind, layout, it),
+                 sample={"oracle": "bin", "shape": list(data.shape), "n": n, "kind": kind, "layout": layout} if it == 0 else None)
         chk.count("oracle:bin:%s:n=%d" % (path, n))
-        check_bin(chk, data, n)
+        chk.count("oracle:bin:kind:" + kind)
+        chk.count("oracle:bin:layout:" + layout)
+        check_bin(chk, data, n, generic)
 
 
 def _poly(nprng, order):
     """coefficients c[p][q], p,q ≤ order, of a tensor polynomial without x↔y symmetry"""
-    return nprng.uniform(-1, 1, (order + 1, order + 1))
+    c = nprng.uniform(-1, 1, (order + 1, order + 1))
+    # degree exactly = order along each axis and jointly: the leading coefficients are bounded away from zero, so a kernel of
+    # lower order than requested cannot reproduce the polynomial
+    for p, q in ((order, order), (order, 0), (0, order)):
+        c[p, q] = nprng.choice([-1.0, 1.0]) * nprng.uniform(0.5, 1.0)
+    return c
 
 
 def _polyval(c, x, y, norm):
@@ -514,7 +633,7 @@ def oracle_zoom(chk, n_cases):
     for it in range(n_cases):
         for entry in ("zoom", "zoom_rbs"):
             chk.oracle_cases += 1
-            order = rng.choice([1, 3, 5])
+            order = (1, 3, 5)[it % 3]            # every order on BOTH entry points, whatever the seed
             n = rng.randint(order + 1, 12)
             nprng = numpy.random.default_rng(rng.getrandbits(32))
             a = nprng.uniform(-1, 1, (n, n))
@@ -524,7 +643,8 @@ def oracle_zoom(chk, n_cases):
             chk.count("oracle:zoom:%s:order%d" % (entry, order))
             mx, my = rng.randint(1, 3), rng.randint(1, 3)
             c = _poly(nprng, order)
-            psize = (rng.randint(2, 25), rng.randint(2, 25))
+            psize = (rng.randint(max(2, n + 1), 25), rng.randint(max(2, n + 1), 25)) if it % 2 == 0 else \
+                (rng.randint(2, 25), rng.randint(2, 25))      # finer than the input: samples strictly between the nodes
             csize = (rng.randint(2, 20), rng.randint(2, 20))
             check_zoom(chk, entry, order, a, b, mx, my, c, psize, csize)
 
@@ -578,15 +698,26 @@ def oracle_azavg(chk, n_cases):
         check_azavg_bounds(chk, data, kind)
 
 
-def check_ee(chk, data, fr, kind=""):
+def check_ee(chk, data, fr, kind="", centre=None):
+    """centre: None (the default centre), or [xc, yc] passed as `center`"""
     _, psf, _ = _lib()
     size = data.shape[0]
-    rep = {"case": "ee", "function": "encircled_energy", "size": size, "fraction": fr, "dtype": str(data.dtype), "data": data.tolist()}
-    curve, err = _call(psf.encircled_energy, data, fraction=fr, eeDiameter=False)
-    d, err2 = _call(psf.encircled_energy, data, fraction=fr)
+    rep = {"case": "ee", "function": "encircled_energy", "size": size, "fraction": fr, "dtype": str(data.dtype), "data": data.tolist(),
+           "centre": None if centre is None else [float(centre[0]), float(centre[1])]}
+    kw = {} if centre is None else {"center": list(centre)}
+    if centre is not None:
+        kind = (kind + " centre=%r" % (list(centre),)).strip()
+    curve, err = _call(psf.encircled_energy, data, fraction=fr, eeDiameter=False, **kw)
+    d, err2 = _call(psf.encircled_energy, data, fraction=fr, **kw)
     if err or err2:
         chk.fail("ee:raises", "encircled_energy(%dx%d %s image, fraction=%r) raised %s" % (size, size, kind, fr, err or err2), rep)
         return
+    if centre is not None and list(centre) == [size // 2, size // 2]:
+        # the documented default centre is the image centre: passing it explicitly must give the same curve
+        c0, e0 = _call(psf.encircled_energy, data, fraction=fr, eeDiameter=False)
+        if e0 or not (numpy.array_equal(c0[0], curve[0]) and numpy.array_equal(c0[1], curve[1])):
+            chk.broke("correspondence", "encircled_energy(%dx%d image) with center=[%d, %d] differs from the default centre "
+                      "(the model's default is [dim, dim])" % (size, size, size // 2, size // 2))
     x, y = numpy.asarray(curve[0], dtype=float), numpy.asarray(curve[1], dtype=float)
     if x.shape != y.shape or x.ndim != 1 or len(x) < 1:
         chk.fail("ee:shape", "encircled_energy curve malformed: shapes %s %s" % (x.shape, y.shape), rep)
@@ -645,9 +776,24 @@ def oracle_ee(chk, n_cases):
             probe, perr = _call(psf.encircled_energy, data, eeDiameter=False)
             if not perr and numpy.all(numpy.isfinite(probe[1])) and 0 < probe[1][-1] <= 1:
                 fr = min(0.999, max(1e-6, rng.uniform(0, float(probe[1][-1]))))
-        chk.case(("oracle", "ee", size, kind, fr, it), sample={"oracle": "ee", "size": size, "kind": kind, "fraction": fr} if it == 0 else None)
+        # centre: default / the image centre given explicitly / anywhere on the image (float) / a pixel corner
+        cm = ("default", "explicit-default", "float", "integer", "default")[it % 5]
+        centre = None
+        if cm == "explicit-default":
+            centre = [dim, dim]
+        elif cm == "float":
+            centre = [rng.uniform(0, size), rng.uniform(0, size)]
+        elif cm == "integer":
+            centre = [rng.randint(0, size), rng.randint(0, size)]
+        if centre is not None and rng.random() < 0.6:     # fraction inside the curve of THIS centre
+            probe, perr = _call(psf.encircled_energy, data, center=centre, eeDiameter=False)
+            if not perr and numpy.all(numpy.isfinite(probe[1])) and 0 < probe[1][-1] <= 1:
+                fr = min(0.999, max(1e-6, rng.uniform(0, float(probe[1][-1]))))
+        chk.case(("oracle", "ee", size, kind, fr, cm, it),
+                 sample={"oracle": "ee", "size": size, "kind": kind, "fraction": fr, "centre": centre} if it == 0 else None)
         chk.count("oracle:ee:" + kind)
-        check_ee(chk, data, fr, kind)
+        chk.count("oracle:ee:centre:" + cm)
+        check_ee(chk, data, fr, kind, centre)
 
 
 def replay(rec):
@@ -661,7 +807,7 @@ def replay(rec):
     r = f["replay"]
     chk = common.Check("C16", "replay", int(rec.get("seed", 0)))
     if r["case"] == "bin":
-        check_bin(chk, numpy.array(r["data"], dtype=r["dtype"]).reshape(r["shape"]), int(r["n"]))
+        check_bin(chk, numpy.array(r["data"], dtype=r["dtype"]).reshape(r["shape"]), int(r["n"]), bool(r.get("generic", False)))
     elif r["case"] == "zoom":
         check_zoom(chk, r["function"], int(r["order"]), numpy.array(r["a"], dtype=float), numpy.array(r["b"], dtype=float),
                    int(r["mx"]), int(r["my"]), numpy.array(r["c"], dtype=float), tuple(r["psize"]), tuple(r["csize"]))
@@ -671,7 +817,7 @@ def replay(rec):
         check_azavg_bounds(chk, numpy.array(r["data"], dtype=r["dtype"]))
     elif r["case"] == "ee":
         data = numpy.ones((r["size"], r["size"])) if r["data"] == "ones" else numpy.array(r["data"], dtype=r["dtype"])
-        check_ee(chk, data, float(r["fraction"]))
+        check_ee(chk, data, float(r["fraction"]), "", r.get("centre"))
     else:
         raise ValueError("unknown replay case %r" % (r["case"],))
     same = [g for g in chk.failures if g["key"] == f["key"]]
@@ -715,7 +861,8 @@ def run(chk):
     chk.rule = ("correspondence: Lean model (Int / Float instantiation of Model/ImageReduce.lean) vs the real functions — exact for "
                 "binImgs, pupil.circle, azimuthal_average (bit-identical), linspace, xi; |Δ| ≤ 1e-12 for the encircled-energy curve, "
                 "1e-11·scale for order-1 zoom with the bilinear kernel run in Lean, 1e-12·scale for orders 3/5 with scipy's kernel at "
-                "the model's coordinates; oracle: the property clauses evaluated on the real code (exact for binning, 1e-9·scale for "
+                "the model's coordinates; oracle: the property clauses evaluated on the real code (exact for binning wherever the block sums "
+                "are representable, n*n*eps*sum|block| for ordinary floats, 1e-9·scale for "
                 "spline clauses, 1e-13 slack for monotonicity / range); distinct = distinct (op, shape, parameters, draw)")
     chk.assumptions = [
         "the model Model/ImageReduce.lean is hand-written; its tie to the source is the correspondence (sampled, not proved)",
@@ -726,7 +873,12 @@ def run(chk):
         "assumed to fit the dtype",
         "IEEE rounding: theorems are over exact real arithmetic; monotonicity / ≤ 1 of the encircled-energy curve in binary64 is "
         "sampled by the oracle with 1e-13 slack",
-        "encircled_energy: images with zero total (division 0/0) are outside the domain (hypothesis 0 < total)",
+        "encircled_energy: images with zero total (division 0/0) are outside the domain (hypothesis 0 < total); the real code "
+        "returns an all-NaN curve for them without raising (observed each run, recorded in the notes, not judged)",
+        "binImgs on ordinary (non-dyadic) floats: 'exactly the block sums' is read as 'to the rounding of a sum of n*n terms' "
+        "(|error| <= n*n*eps*sum|block|, an a-priori bound valid for every summation order); images whose block sums are exactly "
+        "representable (integers, dyadics, narrow / unsigned dtypes with sums that fit, float images with a 2^k hot pixel) are "
+        "compared exactly against Fraction / integer block sums",
         "zoom: arrays need more than `order` samples per axis (precondition of the spline kernel; smaller arrays make scipy raise) "
         "— theorem hypothesis order < nx, ny; the oracle draws n ≥ order + 1",
         "encircled_energy with a pixel-centred (half-integer) centre: the outermost mask then depends on the last ulp of libm's pow "
@@ -738,7 +890,16 @@ def run(chk):
         correspondence(chk, 3 if quick else 100)
     except common.LeanError as ex:
         chk.broke("correspondence", "Lean driver for C16 does not build / run", str(ex))
-    oracle_bin(chk, 120 if quick else 10000)
+    oracle_bin(chk, 130 if quick else 6500)
+    chk.notes.append("binning of ordinary floats (12 decades, float64 and float32): worst |binImgs - exact block sum| was %.3g of the "
+                     "allowed n*n*eps*sum|block| (exact expectations by Fraction; integer, dyadic, narrow / unsigned dtypes and "
+                     "high-dynamic-range images with a 2^k hot pixel are compared exactly)" % getattr(chk, "generic_worst", 0.0))
+    _, psf_, _ = _lib()
+    with numpy.errstate(all="ignore"):
+        z, zerr = _call(psf_.encircled_energy, numpy.zeros((4, 4)), eeDiameter=False)
+    chk.notes.append("zero-total image (outside the domain, hypothesis 0 < total): encircled_energy(zeros((4,4))) %s"
+                     % ("raised " + zerr if zerr else "returns a curve with %d NaN of %d samples (0/0), no exception"
+                        % (int(numpy.isnan(z[1]).sum()), len(z[1]))))
     oracle_zoom(chk, 40 if quick else 4000)
     oracle_azavg(chk, 80 if quick else 10000)
     oracle_ee(chk, 80 if quick else 6000)
